@@ -16,12 +16,26 @@
 #endif
 
 static pq_schema_t S; static pq_column_t C[PQ_MAXCOLS];
+#ifdef NULLABLE
+static const int16_t DEFA[N] = {1, 0, 1, 1, 1, 0};      /* the two columns have nulls at DIFFERENT rows */
+static const int16_t DEFB[N] = {0, 1, 1, 0, 1, 1};
+#endif
 static void table(void) {
     memset(&S, 0, sizeof S); memset(C, 0, sizeof C);
     S.ncols = 2;
     S.name[0] = "a"; S.type[0] = CARQUET_PHYSICAL_INT32; S.rep[0] = CARQUET_REPETITION_REQUIRED;
     S.name[1] = "b"; S.type[1] = CARQUET_PHYSICAL_INT64; S.rep[1] = CARQUET_REPETITION_REQUIRED;
+#ifdef NULLABLE
+    S.rep[0] = S.rep[1] = CARQUET_REPETITION_OPTIONAL;
+    int na = 0, nb = 0;
+    for (int i = 0; i < N; i++) {
+        C[0].def[i] = DEFA[i]; C[1].def[i] = DEFB[i];
+        if (DEFA[i]) { int32_t v = 100 + i; memcpy(C[0].vals + 4 * na++, &v, 4); }
+        if (DEFB[i]) { int64_t w = 7000 + i; memcpy(C[1].vals + 8 * nb++, &w, 8); }
+    }
+#else
     for (int i = 0; i < N; i++) { int32_t v = 100 + i; memcpy(C[0].vals + 4 * i, &v, 4); int64_t w = 7000 + i; memcpy(C[1].vals + 8 * i, &w, 8); }
+#endif
     C[0].nrows = C[1].nrows = N;
 }
 static uint8_t filebuf[4096]; static size_t filelen;
@@ -45,10 +59,18 @@ void harness(void) {
     symx_assume(r != NULL);
     carquet_batch_reader_config_t bc; carquet_batch_reader_config_init(&bc);
     bc.batch_size = BATCHROWS;
+#ifdef THREADS
+    bc.num_threads = THREADS;
+#else
     bc.num_threads = 1 + symx_choice(3, "num_threads-1");
+#endif
     carquet_batch_reader_t* br = carquet_batch_reader_create(r, &bc, &err);
     symx_assume(br != NULL);
+#ifdef THREADS
+    symx_omp_threads(THREADS);       /* modelled workers with preemption at conflicting accesses */
+#else
     symx_omp_permute(1);
+#endif
     symx_interfere(1);
     int pos = 0;
     for (int it = 0; it < 3; it++) {
@@ -65,10 +87,23 @@ void harness(void) {
         for (int c = 0; c < 2; c++) {
             const void* data; const uint8_t* nulls; int64_t nv;
             SYMX_ASSERT(carquet_row_batch_column(b, c, &data, &nulls, &nv) == CARQUET_OK && nv == rows, "all columns of a batch have the same rows");
+#ifdef NULLABLE
+            int k = 0;
+            for (int i = 0; i < rows; i++) {
+                int present = c == 0 ? DEFA[pos + i] : DEFB[pos + i];
+                int bit = nulls ? (nulls[i / 8] >> (i % 8)) & 1 : 0;
+                SYMX_ASSERT(bit == !present, "null bitmap of every column equals the single-threaded one (bit set = null)");
+                if (!present) continue;
+                if (c == 0) { int32_t v; memcpy(&v, (const uint8_t*)data + 4 * k, 4); SYMX_ASSERT(v == 100 + pos + i, "column a: same values as single-threaded"); }
+                else { int64_t w; memcpy(&w, (const uint8_t*)data + 8 * k, 8); SYMX_ASSERT(w == 7000 + pos + i, "column b: same values as single-threaded"); }
+                k++;
+            }
+#else
             for (int i = 0; i < rows; i++) {
                 if (c == 0) { int32_t v; memcpy(&v, (const uint8_t*)data + 4 * i, 4); SYMX_ASSERT(v == 100 + pos + i, "column a: same values as single-threaded"); }
                 else { int64_t w; memcpy(&w, (const uint8_t*)data + 8 * i, 8); SYMX_ASSERT(w == 7000 + pos + i, "column b: same values as single-threaded"); }
             }
+#endif
         }
         pos += (int)rows;
         carquet_row_batch_free(b);
